@@ -29,7 +29,9 @@ MALFORMED_NAMES = [
 ]
 ODD_VALID_IDS = ["a", "a/", "/a", "a/b", "é", "x y", "-", "t" * 40, "topics", "subscriptions/x"]
 
-DATA_POOL = [b"", b"a", b"hello", b"\x00\xff\x10", b"x" * 40, "hé".encode(), b"{\"k\":1}"]
+# the last one exercises every base64 digit class incl. the two (62, 63) in which the alphabets differ
+DATA_POOL = [b"", b"a", b"hello", b"\x00\xff\x10", b"x" * 40, "hé".encode(), b"{\"k\":1}",
+             b"\x00\xfb\xef\xbe\xff\xfe\xfd>?\x7f\x80"]
 ATTR_KEYS = ["k", "k2", "é", "a b", ""]
 ATTR_VALS = ["v", "", "wü", "1"]
 
@@ -37,7 +39,7 @@ ADV_MS = [1, 7, 50, 99, 100, 101, 500, 1000, 4000, 9899, 9900, 9999, 10000, 1000
           10200, 11000, 12000, 15000, 20100, 30000, 599900, 600000, 600100]
 PULL_MAX = [1, 1, 2, 3, 10, 10, 100, 1000]
 PULL_MAX_ODD = [0, -1, 65535, 65536, 65537, 131072, 2147483647, -2147483648, 1001, 999]
-ACKDL = [0, 0, 10, 11, 12, 15, 20, -5, 600, 700]
+ACKDL = [0, 0, 10, 11, 12, 15, 20, -5, 600, 700, 1, 5, 9]
 MOD_SECS = [0, 0, 1, 5, 9, 10, 11, 30, 599, 600, 601, 100000, 65535, 65536, 65537, 65566, 131072, 131100, 16777216,
             -1, -2147483648, 2147483647]
 BAD_ACK_IDS = ["", "x", "-1", "1.5", "18446744073709551616", "99999999999999999999999", "١", " 1", "1 ", "0x1"]
@@ -851,7 +853,8 @@ def push_cases(seed, n, with_hang=False, prefix="ps"):
         for j in range(k):
             na = rng.choice([0, 0, 1, 2])
             keys = rng.sample(["k", "é", "a b"], na)
-            msgs.append("%s %d %s" % (hx(rng.choice([b"", b"hello", b"\x00\xff", "wü".encode()])), na,
+            msgs.append("%s %d %s" % (hx(rng.choice([b"", b"hello", b"\x00\xff", "wü".encode(),
+                                                     b"\x00\xfb\xef\xbe\xff\xfe\xfd>?\x7f\x80", bytes(range(256))])), na,
                                       " ".join("%s %s" % (hx(x), hx(rng.choice(["v", "", "ü"]))) for x in keys)))
         ops.append(" ".join(("PUB %s %d %s" % (T, k, " ".join(msgs))).split()))
         rounds = rng.randrange(2, 5)
